@@ -22,6 +22,15 @@ PRELUDE = """#[derive(Copy, Drop, PartialEq)]
 struct S { a: u8, b: u32 }
 #[derive(Copy, Drop)]
 enum E { A: u8, B, C: (u16, bool) }
+#[derive(Copy, Drop)]
+struct In2g { m: felt252, n: felt252 }
+#[derive(Copy, Drop)]
+struct Out2g { a: In2g, k: felt252 }
+#[inline(never)]
+fn gpick(b: Box<felt252>, c: bool, alt: felt252) -> Box<felt252> {
+    let v = if c { b.unbox() } else { alt };
+    BoxTrait::new(v)
+}
 """
 
 
@@ -145,6 +154,14 @@ class Gen:
                 # conversion from another integer type
                 src = r.choice([t for t in INTS if t != ty]) if ty != "felt252" else r.choice(INTS)
                 return ("cast", self.gen(src, env, depth + 1), src, ty, ty)
+            if ty == "felt252" and c > 0.72 and c < 0.80:
+                if r.random() < 0.5:
+                    return ("boxmerge", self.gen("felt252", env, depth + 1),
+                            self.gen("bool", env, depth + 1), self.gen("felt252", env, depth + 1),
+                            ty)
+                sub = [self.gen("felt252", env, depth + 2) for _ in range(7)]
+                return ("mutnest", sub, self.gen("bool", env, depth + 1), r.choice([True, False]),
+                        r.choice(["m", "n", "k", "sum"]), r.choice(["n", "m"]), ty)
             if c < 0.84:
                 return self.gen_let(ty, env, depth)
             if c < 0.87:
@@ -340,6 +357,19 @@ class Gen:
             return f"{e[1]}({', '.join(self.src(a) for a in e[2])})"
         if k == "let":
             return f"{{ let {e[1]}: {self.ty_src(e[2])} = {self.src(e[3])}; {self.src(e[4])} }}"
+        if k == "boxmerge":
+            return f"gpick(BoxTrait::new({self.src(e[1])}), {self.src(e[2])}, {self.src(e[3])}).unbox()"
+        if k == "mutnest":
+            sub, cond, in_then, proj, upd = e[1], e[2], e[3], e[4], e[5]
+            v = self.fresh()
+            re = (f"{v} = Out2g {{ a: In2g {{ m: {self.src(sub[4])}, n: {self.src(sub[5])} }}, "
+                  f"k: {self.src(sub[6])} }};")
+            branch = f"if {self.src(cond)} {{ {re} }}" if in_then else \
+                f"if {self.src(cond)} {{ {v}.k = 1; }} else {{ {re} }}"
+            res = {"m": f"{v}.a.m", "n": f"{v}.a.n", "k": f"{v}.k",
+                   "sum": f"{v}.a.m + {v}.a.n * 3 + {v}.k * 7"}[proj]
+            return (f"{{ let mut {v} = Out2g {{ a: In2g {{ m: {self.src(sub[0])}, n: {self.src(sub[1])} }}, "
+                    f"k: {self.src(sub[2])} }}; {v}.a.{upd} = {self.src(sub[3])}; {branch} {res} }}")
         if k == "matchnum":
             arms = ", ".join(f"{i} => {self.src(a)}" for i, a in enumerate(e[3]))
             return f"(match ({self.src(e[1])}) {{ {arms}, _ => {self.src(e[4])} }})"
@@ -554,6 +584,32 @@ class Ref:
         if k == "let":
             v = self.ev(e[3], env)
             return self.ev(e[4], dict(env, **{e[1]: v}))
+        if k == "boxmerge":
+            x = self.ev(e[1], env)
+            c = self.ev(e[2], env)
+            alt = self.ev(e[3], env)
+            return vite(_z(sel(c)) == 1, x, alt)
+        if k == "mutnest":
+            sub, cond, in_then, proj, upd = e[1], e[2], e[3], e[4], e[5]
+            m, n, kk = (self.ev(sub[i], env) for i in range(3))
+            u = self.ev(sub[3], env)
+            if upd == "n":
+                n = u
+            else:
+                m = u
+            c = self.ev(cond, env)
+            cc = _z(sel(c)) == 1
+
+            def reassign():
+                return ("struct", [self.ev(sub[4], env), self.ev(sub[5], env), self.ev(sub[6], env)])
+            cur = ("struct", [m, n, kk])
+            if in_then:
+                st = self.branch(cc, reassign, lambda: cur)
+            else:
+                st = self.branch(cc, lambda: ("struct", [m, n, ("int", 1)]), reassign)
+            mm, nn, k2 = (_z(x[1]) for x in st[1])
+            return {"m": ("int", mm), "n": ("int", nn), "k": ("int", k2),
+                    "sum": ("int", (mm + nn * 3 + k2 * 7) % P)}[proj]
         if k == "matchnum":
             s = _z(self.ev(e[1], env)[1])
             arms = e[3]
